@@ -2121,6 +2121,13 @@ impl<'a, E: quiver_core::effects::Effect> Compiler<'a, E> {
                 if let Some(d) = &mut dispatch {
                     d.valid = false;
                 }
+                // The condition's code still runs (and stores its bindings, nil-filled or not)
+                // before it yields nil: release those locals, as every live branch does, so the
+                // next branch's bindings land in the slots the compiler numbered for them.
+                if self.local_count > param_local + 1 {
+                    self.codegen
+                        .add_instruction(Instruction::Reset(param_local + 1));
+                }
                 continue;
             }
 
